@@ -36,7 +36,7 @@ import ast
 import os
 from fractions import Fraction
 
-NUM, INT, BOOL, UNIT, ELT, NONE, STR = "num", "Z", "bool", "unit", "T", "none", "str"
+NUM, INT, BOOL, UNIT, ELT, NONE, STR, NUMX = "num", "Z", "bool", "unit", "T", "none", "str", "numx"
 
 
 class Unsupported(Exception):
@@ -183,6 +183,10 @@ class Translator:
     def cty(self, t, elt=None):
         if t == NUM:
             return "num A"
+        if t == NUMX:
+            return "option (num A)"
+        if isinstance(t, tuple) and t[0] == "tuple":
+            return "(" + " * ".join(self.cty(x, elt) for x in t[1]) + ")"
         if t == INT:
             return "Z"
         if t == BOOL:
@@ -360,7 +364,7 @@ class Translator:
         out = [
             "(** GENERATED by harness/py2coq.py from /repo's source on every run -- do not edit. " + module_doc + " *)",
             "From Coq Require Import ZArith List Bool.",
-            "From FV Require Import NumSys Py Queue.",
+            "From FV Require Import NumSys Py NumX Queue.",
             "Import ListNotations.",
             "Section Gen.",
             "  Context {A : Arith}.",
@@ -642,11 +646,15 @@ class Frame:
             if any(b.lines for b in blocks):
                 blk.do("_", f"(if {c.e} then\n{blocks[0].render_with('Ok tt')}\n  else\n{blocks[1].render_with('Ok tt')})")
             return False
+        # a local bound in only one branch is undefined afterwards (reading it later is then an unbound name)
+        for p in [p for p in paths if p[0] == "local" and any(sub.get_path(p) is None for sub in subs)]:
+            paths.remove(p)
+            self.env.pop(p[1], None)
         vals = [[sub.get_path(p) for p in paths] for sub in subs]
         tys = []
         for a, b_ in zip(*vals):
             if a is None or b_ is None:
-                raise Unsupported(f"variable defined in only one branch of `if {ast.unparse(s.test)}`")
+                raise Unsupported(f"field set in only one branch of `if {ast.unparse(s.test)}`")
             tys.append(join(a.ty, b_.ty))
         tup = lambda vs: (lambda xs: xs[0] if len(xs) == 1 else "(" + ", ".join(xs) + ")")([coerce(v, t).e for v, t in zip(vs, tys)])
         names = [self.tr.name(p[-1].strip("_").replace(".", "_") + "_") for p in paths]
@@ -751,6 +759,14 @@ class Frame:
         self.store(target, v, blk)
 
     def store(self, target, v, blk):
+        if isinstance(target, ast.Tuple):
+            if not (isinstance(v, V) and isinstance(v.ty, tuple) and v.ty[0] == "tuple" and len(v.ty[1]) == len(target.elts)):
+                raise Unsupported("tuple assignment from a non-tuple")
+            names = [self.tr.name("t_") for _ in target.elts]
+            blk.let("'(" + ", ".join(names) + ")", v.e)
+            for tnode, nm, ty in zip(target.elts, names, v.ty[1]):
+                self.store(tnode, V(nm, ty), blk)
+            return
         if isinstance(target, ast.Name):
             if isinstance(v, V) and not self._atomic(v.e):
                 n = self.tr.name(target.id + "_")
@@ -975,6 +991,11 @@ class Frame:
             return e
         if isinstance(n, ast.IfExp):
             return self.ifexp(n)
+        if isinstance(n, ast.Tuple):
+            vs = [self.ev(x) for x in n.elts]
+            if any(isinstance(v, O) for v in vs):
+                raise Unsupported("tuple of objects")
+            return V("(" + ", ".join(v.e for v in vs) + ")", ("tuple", [v.ty for v in vs]))
         if isinstance(n, ast.Call):
             return self.call_expr(n)
         raise Unsupported(f"expression {type(n).__name__}: {ast.unparse(n)[:80]}")
@@ -1023,6 +1044,15 @@ class Frame:
             if f in ("Z.modulo", "Z.div"):
                 self.guard(f"(Z.eqb {b.e} 0%Z)", "ZeroDivisionError")
             return V(f"({f} {a.e} {b.e})", INT)
+        if NUMX in (a.ty, b.ty) and a.ty in (INT, NUM, NUMX) and b.ty in (INT, NUM, NUMX):
+            if isinstance(op, ast.Add):
+                return V(f"(xadd {coerce(a, NUMX).e} {coerce(b, NUMX).e})", NUMX)
+            if isinstance(op, ast.Mult):
+                if a.ty == NUMX and b.ty == NUMX:
+                    raise Unsupported("product of two extended numbers")
+                l, x = (a, b) if b.ty == NUMX else (b, a)
+                return V(f"(xmul {coerce(l, NUM).e} {x.e})", NUMX)
+            raise Unsupported(f"operator on an extended number: {ast.unparse(n)}")
         if a.ty in (INT, NUM) and b.ty in (INT, NUM):
             a, b = coerce(a, NUM), coerce(b, NUM)
             f = {ast.Add: "add", ast.Sub: "sub", ast.Mult: "mul", ast.Div: "div"}.get(type(op))
@@ -1056,6 +1086,19 @@ class Frame:
         if a.ty == BOOL and b.ty == BOOL and isinstance(op, (ast.Eq, ast.NotEq)):
             e = f"(Bool.eqb {a.e} {b.e})"
             return V(e if isinstance(op, ast.Eq) else f"(negb {e})", BOOL)
+        if NUMX in (a.ty, b.ty) and a.ty in (INT, NUM, NUMX) and b.ty in (INT, NUM, NUMX):
+            swap = isinstance(op, (ast.Gt, ast.GtE))
+            x, y = (b, a) if swap else (a, b)  # x < y  or  x <= y
+            strict = isinstance(op, (ast.Lt, ast.Gt))
+            if not isinstance(op, (ast.Lt, ast.Gt, ast.LtE, ast.GtE)):
+                raise Unsupported("equality on an extended number")
+            if x.ty == NUMX and y.ty == NUMX:
+                if not strict:
+                    raise Unsupported("<= between two extended numbers")
+                return V(f"(x_lt_xx {x.e} {y.e})", BOOL)
+            if y.ty == NUMX:
+                return V(f"({'x_lt_nx' if strict else 'x_le_nx'} {coerce(x, NUM).e} {y.e})", BOOL)
+            return V(f"({'x_lt_xn' if strict else 'x_le_xn'} {x.e} {coerce(y, NUM).e})", BOOL)
         if a.ty == INT and b.ty == INT:
             m = {ast.Lt: ("Z.ltb", 0), ast.LtE: ("Z.leb", 0), ast.Gt: ("Z.ltb", 1), ast.GtE: ("Z.leb", 1), ast.Eq: ("Z.eqb", 0), ast.NotEq: ("Z.eqb", 2)}
         elif a.ty in (INT, NUM) and b.ty in (INT, NUM):
@@ -1244,6 +1287,8 @@ class Frame:
             return V(f"(exp {coerce(args[0], NUM).e})", NUM)
         if name in ("abs", "np.abs") and len(args) == 1:
             return V(f"(absA {coerce(args[0], NUM).e})", NUM)
+        if name == "float" and len(args) == 1 and args[0].ty == STR and args[0].e == '"inf"':
+            return V("(@None (num A))", NUMX)
         if name == "float" and len(args) == 1 and args[0].ty in (INT, NUM):
             return coerce(args[0], NUM)
         if name == "np.random.seed":
@@ -1393,12 +1438,16 @@ def flit(x):
 def join(a, b):
     if a == b:
         return a
+    if isinstance(a, tuple) and isinstance(b, tuple) and a[0] == b[0] == "tuple" and len(a[1]) == len(b[1]):
+        return ("tuple", [join(x, y) for x, y in zip(a[1], b[1])])
     if a == NONE:
         return b if isinstance(b, tuple) and b[0] == "opt" else opt(b)
     if b == NONE:
         return a if isinstance(a, tuple) and a[0] == "opt" else opt(a)
     if {a, b} == {INT, NUM}:
         return NUM
+    if NUMX in (a, b) and a in (INT, NUM, NUMX) and b in (INT, NUM, NUMX):
+        return NUMX
     if isinstance(a, tuple) and a[0] == "opt" and a[1] == b:
         return a
     if isinstance(b, tuple) and b[0] == "opt" and b[1] == a:
@@ -1413,6 +1462,8 @@ def coerce(v: V, ty):
         return v
     if v.ty == INT and ty == NUM:
         return V(f"(@ofZ A {v.e})", NUM)
+    if v.ty in (INT, NUM) and ty == NUMX:
+        return V(f"(Some {coerce(v, NUM).e})", NUMX)
     if v.ty == BOOL and ty == INT:
         return V(f"(b2z {v.e})", INT)
     if v.ty == NONE and isinstance(ty, tuple) and ty[0] == "opt":
